@@ -65,12 +65,12 @@ func ItemsEqual(it, with Item) bool {
 			result = i.Equals(with)
 			return nil
 		})
-		if ActivityTypes.Contains(with.GetType()) {
+		if typ := with.GetType(); typ == ActivityType || ActivityTypes.Contains(typ) {
 			_ = OnActivity(it, func(i *Activity) error {
 				result = i.Equals(with)
 				return nil
 			})
-		} else if ActorTypes.Contains(with.GetType()) {
+		} else if typ == ActorType || ActorTypes.Contains(typ) {
 			_ = OnActor(it, func(i *Actor) error {
 				result = i.Equals(with)
 				return nil
